@@ -1,7 +1,491 @@
 package main
 
-// runReplayDriver replays a solver model on the real code through a per-function driver
-// (see /verif/replay). Returns (reproduced, output). Output "" means no driver exists.
-func runReplayDriver(verif, prop string, o *ObStatus) (bool, string) {
-	return false, ""
+// Replay of a solver counterexample on the real code.
+//
+// For a failed *safety* obligation with a `sat` answer the solver's model describes an entry state (parameters and
+// the heap they reach) in which the function panics. This file turns that model into an in-package Go test that
+// builds the same objects (fields, slices, byte strings; what cannot be built - non-nil interfaces, maps, channels,
+// functions - makes the replay give up), calls the real function and reports whether it panics. The test is run with
+// `go test -overlay`, so nothing is written to /repo. The model is queried through an interactive solver session
+// ((get-value ...) on the script that produced the `sat`), never parsed as a whole.
+
+import (
+	"bufio"
+	"encoding/json"
+	"fmt"
+	"go/types"
+	"io"
+	"os"
+	"os/exec"
+	"path/filepath"
+	"regexp"
+	"sort"
+	"strconv"
+	"strings"
+	"time"
+
+	"golang.org/x/tools/go/ssa"
+)
+
+type replayGiveUp struct{ why string }
+
+type modelSession struct {
+	cmd *exec.Cmd
+	in  io.WriteCloser
+	out *bufio.Reader
+}
+
+func startModelSession(script string) (*modelSession, error) {
+	b, err := os.ReadFile(script)
+	if err != nil {
+		return nil, err
+	}
+	var sb strings.Builder
+	for _, l := range strings.Split(string(b), "\n") {
+		t := strings.TrimSpace(l)
+		if t == "(get-model)" || t == "(exit)" || strings.HasPrefix(t, "(get-value") {
+			continue
+		}
+		sb.WriteString(l)
+		sb.WriteString("\n")
+	}
+	cmd := exec.Command("z3-new", "-in", "-smt2", "-t:20000")
+	in, _ := cmd.StdinPipe()
+	outp, _ := cmd.StdoutPipe()
+	cmd.Stderr = nil
+	if err := cmd.Start(); err != nil {
+		return nil, err
+	}
+	m := &modelSession{cmd: cmd, in: in, out: bufio.NewReader(outp)}
+	io.WriteString(in, "(set-option :produce-models true)\n")
+	io.WriteString(in, sb.String())
+	// the script contains its own (check-sat); read answers until we see one
+	deadline := time.Now().Add(40 * time.Second)
+	for time.Now().Before(deadline) {
+		line, err := m.out.ReadString('\n')
+		if err != nil {
+			m.close()
+			return nil, fmt.Errorf("solver ended: %v", err)
+		}
+		t := strings.TrimSpace(line)
+		if t == "sat" {
+			return m, nil
+		}
+		if t == "unsat" || t == "unknown" || strings.HasPrefix(t, "(error") {
+			m.close()
+			return nil, fmt.Errorf("solver answered %s", t)
+		}
+	}
+	m.close()
+	return nil, fmt.Errorf("timeout")
+}
+
+func (m *modelSession) close() {
+	if m.in != nil {
+		io.WriteString(m.in, "(exit)\n")
+		m.in.Close()
+	}
+	if m.cmd != nil && m.cmd.Process != nil {
+		m.cmd.Process.Kill()
+		m.cmd.Wait()
+	}
+}
+
+// eval returns the model value of term as text.
+func (m *modelSession) eval(term string) string {
+	io.WriteString(m.in, "(get-value ("+term+"))\n")
+	depth := 0
+	var sb strings.Builder
+	started := false
+	for {
+		r, _, err := m.out.ReadRune()
+		if err != nil {
+			panic(replayGiveUp{"solver session ended"})
+		}
+		if r == '(' {
+			depth++
+			started = true
+		}
+		if started {
+			sb.WriteRune(r)
+		}
+		if r == ')' {
+			depth--
+			if started && depth == 0 {
+				break
+			}
+		}
+	}
+	s := sb.String()
+	if strings.HasPrefix(s, "(error") {
+		panic(replayGiveUp{"get-value failed: " + s})
+	}
+	// ((term value)) -> value is the last top-level s-expression inside the inner list
+	inner := strings.TrimSpace(s[1 : len(s)-1])
+	inner = strings.TrimSpace(inner[1 : len(inner)-1])
+	// scan from the end
+	i := len(inner) - 1
+	if inner[i] == ')' {
+		d := 0
+		for ; i >= 0; i-- {
+			if inner[i] == ')' {
+				d++
+			} else if inner[i] == '(' {
+				d--
+				if d == 0 {
+					break
+				}
+			}
+		}
+		return inner[i:]
+	}
+	for ; i >= 0 && inner[i] != ' ' && inner[i] != '\n'; i-- {
+	}
+	return inner[i+1:]
+}
+
+func (m *modelSession) evalInt(term string) int64 {
+	v := strings.TrimSpace(m.eval(term))
+	v = strings.ReplaceAll(v, "(- ", "-")
+	v = strings.ReplaceAll(v, ")", "")
+	v = strings.ReplaceAll(v, " ", "")
+	n, err := strconv.ParseInt(v, 10, 64)
+	if err != nil {
+		panic(replayGiveUp{"integer outside int64 or not a numeral: " + v})
+	}
+	return n
+}
+
+type replayBuilder struct {
+	e       *Engine
+	m       *modelSession
+	pkg     *types.Package
+	decls   []string // object declarations
+	assigns []string // field assignments
+	objs    map[string]string // "ref|type" -> variable name
+	imports map[string]string // path -> alias
+	rnil    string
+	inil    string
+	n       int
+	approx  []string
+}
+
+func (b *replayBuilder) qual(p *types.Package) string {
+	if p == b.pkg {
+		return ""
+	}
+	if a, ok := b.imports[p.Path()]; ok {
+		return a
+	}
+	a := fmt.Sprintf("p%d_%s", len(b.imports), sanitize(p.Name()))
+	b.imports[p.Path()] = a
+	return a
+}
+
+func (b *replayBuilder) typeStr(t types.Type) string { return types.TypeString(t, b.qual) }
+
+// settable: can a field of struct type owner be assigned from the test package?
+func (b *replayBuilder) settable(owner types.Type, f *types.Var) bool {
+	if f.Exported() {
+		return true
+	}
+	return f.Pkg() == b.pkg
+}
+
+// value builds a Go expression for the value of SMT term `term` of Go type t.
+func (b *replayBuilder) value(term string, t types.Type) string {
+	switch u := t.Underlying().(type) {
+	case *types.Basic:
+		switch {
+		case u.Info()&types.IsBoolean != 0:
+			if strings.TrimSpace(b.m.eval(term)) == "true" {
+				return "true"
+			}
+			return "false"
+		case u.Info()&types.IsInteger != 0:
+			n := b.m.evalInt(term)
+			return fmt.Sprintf("%s(%d)", b.typeStr(t), n)
+		case u.Info()&types.IsString != 0:
+			return fmt.Sprintf("%s(%s)", b.typeStr(t), b.bytesLit(term))
+		case u.Info()&types.IsFloat != 0:
+			return b.typeStr(t) + "(0)"
+		}
+	case *types.Pointer:
+		r := strings.TrimSpace(b.m.eval(term))
+		if r == b.rnil {
+			return "nil"
+		}
+		return b.object(term, r, u.Elem())
+	case *types.Slice:
+		if bt, ok := u.Elem().Underlying().(*types.Basic); ok && bt.Kind() == types.Uint8 {
+			if strings.TrimSpace(b.m.eval("(bnilp "+term+")")) == "true" {
+				return "nil"
+			}
+			return fmt.Sprintf("%s(%s)", b.typeStr(t), b.bytesLit(term))
+		}
+		arr := strings.TrimSpace(b.m.eval("(sarr " + term + ")"))
+		ln := b.m.evalInt("(slen " + term + ")")
+		if arr == b.rnil {
+			return "nil"
+		}
+		if ln < 0 || ln > 256 {
+			panic(replayGiveUp{fmt.Sprintf("slice of length %d", ln)})
+		}
+		if isStruct(u.Elem()) {
+			panic(replayGiveUp{"slice of struct values"})
+		}
+		off := b.m.evalInt("(soff " + term + ")")
+		eh := b.e.d.ElemHeapT(u.Elem())
+		var els []string
+		for i := int64(0); i < ln; i++ {
+			els = append(els, b.value(fmt.Sprintf("(select (select %s (sarr %s)) %d)", eh, term, off+i), u.Elem()))
+		}
+		return fmt.Sprintf("%s{%s}", b.typeStr(t), strings.Join(els, ", "))
+	case *types.Array:
+		if isStruct(u.Elem()) || u.Len() > 64 {
+			panic(replayGiveUp{"array of structs or long array"})
+		}
+		var els []string
+		for i := int64(0); i < u.Len(); i++ {
+			els = append(els, b.value(fmt.Sprintf("(select %s %d)", term, i), u.Elem()))
+		}
+		return fmt.Sprintf("%s{%s}", b.typeStr(t), strings.Join(els, ", "))
+	case *types.Interface:
+		if strings.TrimSpace(b.m.eval(term)) == b.inil {
+			return "nil"
+		}
+		panic(replayGiveUp{"non-nil interface value (" + t.String() + ")"})
+	case *types.Map, *types.Chan, *types.Signature:
+		b.approx = append(b.approx, "nil "+t.String())
+		return "nil"
+	case *types.Struct:
+		panic(replayGiveUp{"struct value of type " + t.String()})
+	}
+	panic(replayGiveUp{"unsupported type " + t.String()})
+}
+
+func (b *replayBuilder) bytesLit(term string) string {
+	ln := b.m.evalInt("(blen " + term + ")")
+	if ln < 0 || ln > 4096 {
+		panic(replayGiveUp{fmt.Sprintf("byte string of length %d", ln)})
+	}
+	var sb strings.Builder
+	sb.WriteString("\"")
+	for i := int64(0); i < ln; i++ {
+		v := b.m.evalInt(fmt.Sprintf("(bat %s %d)", term, i))
+		sb.WriteString(fmt.Sprintf("\\x%02x", byte(v)))
+	}
+	sb.WriteString("\"")
+	return sb.String()
+}
+
+// object returns the name of the Go variable holding the object at ref r (of struct type t), creating it on first use.
+// rterm is an SMT term denoting the reference, rval its value in the model (used as identity only).
+func (b *replayBuilder) object(rterm, rval string, t types.Type) string {
+	r := rterm
+	key := rval + "|" + t.String()
+	if n, ok := b.objs[key]; ok {
+		return n
+	}
+	if !isStruct(t) {
+		// pointer to a scalar / array: a fresh box with the model value
+		b.n++
+		name := fmt.Sprintf("o%d", b.n)
+		b.objs[key] = name
+		if isArray(t) {
+			panic(replayGiveUp{"pointer to array"})
+		}
+		box := b.e.d.BoxHeap(b.e.d.SortOf(t))
+		b.decls = append(b.decls, fmt.Sprintf("%s := new(%s)", name, b.typeStr(t)))
+		b.assigns = append(b.assigns, fmt.Sprintf("*%s = %s", name, b.value(fmt.Sprintf("(select %s %s)", box, r), t)))
+		return name
+	}
+	b.n++
+	if b.n > 200 {
+		panic(replayGiveUp{"more than 200 objects"})
+	}
+	name := fmt.Sprintf("o%d", b.n)
+	b.objs[key] = name
+	b.decls = append(b.decls, fmt.Sprintf("%s := new(%s)", name, b.typeStr(t)))
+	b.fields(name, r, t)
+	return name
+}
+
+// fields assigns the fields of the struct (of type t) stored at ref r into the Go lvalue lv.
+func (b *replayBuilder) fields(lv, r string, t types.Type) {
+	st := t.Underlying().(*types.Struct)
+	for i := 0; i < st.NumFields(); i++ {
+		f := st.Field(i)
+		if f.Name() == "_" {
+			continue
+		}
+		if isStruct(f.Type()) {
+			if !b.settable(t, f) {
+				continue // e.g. sync.Mutex internals: zero value
+			}
+			if named, ok := f.Type().(*types.Named); ok && named.Obj().Pkg() != nil && (named.Obj().Pkg().Path() == "sync" || named.Obj().Pkg().Path() == "time") {
+				continue
+			}
+			sub := fmt.Sprintf("(%s %s)", b.e.d.SubRef(t, i), r)
+			b.fields(lv+"."+f.Name(), sub, f.Type())
+			continue
+		}
+		if !b.settable(t, f) {
+			continue
+		}
+		h, _ := b.e.d.FieldHeap(t, i)
+		v := b.value(fmt.Sprintf("(select %s %s)", h, r), f.Type())
+		b.assigns = append(b.assigns, fmt.Sprintf("%s.%s = %s", lv, f.Name(), v))
+	}
+}
+
+var reInParam = regexp.MustCompile(`\(declare-const (in_[A-Za-z0-9_]+![0-9]+) `)
+
+// runReplayDriver replays a solver model on the real code. Returns (reproduced, output). Output "" means no replay
+// was possible (the caller then reports no-failing-input-found).
+func runReplayDriver(e *Engine, verif, prop string, o *ObStatus) (reproduced bool, output string, testSrc string, pkgDir string) {
+	if !strings.HasPrefix(o.Class, "safety") || o.Script == "" {
+		return false, "", "", ""
+	}
+	var fn *ssa.Function
+	for k, f := range e.fnByKey {
+		if shortKeyOf(k) == o.Func || k == o.Func {
+			fn = f
+			break
+		}
+	}
+	if fn == nil || fn.Pkg == nil || fn.Parent() != nil {
+		return false, "", "", ""
+	}
+	defer func() {
+		if r := recover(); r != nil {
+			if g, ok := r.(replayGiveUp); ok {
+				reproduced, output, testSrc, pkgDir = false, "replay not possible: "+g.why, "", ""
+				return
+			}
+			reproduced, output, testSrc, pkgDir = false, fmt.Sprintf("replay not possible: %v", r), "", ""
+		}
+	}()
+	// use the z3 flavour of the script (the first definitive answer may have come from another back end)
+	script := o.Script
+	for _, suf := range []string{".cvc5-1.0.3.smt2", ".z3-4.8.12.smt2"} {
+		if strings.HasSuffix(script, suf) {
+			alt := strings.TrimSuffix(script, suf) + ".z3-5.1.0.smt2"
+			if _, err := os.Stat(alt); err == nil {
+				script = alt
+			}
+		}
+	}
+	sb, err := os.ReadFile(script)
+	if err != nil {
+		return false, "", "", ""
+	}
+	params := map[string]string{}
+	for _, m := range reInParam.FindAllStringSubmatch(string(sb), -1) {
+		name := m[1][3:strings.LastIndex(m[1], "!")]
+		if _, dup := params[name]; !dup {
+			params[name] = m[1]
+		}
+	}
+	ms, err := startModelSession(script)
+	if err != nil {
+		return false, "replay not possible: " + err.Error(), "", ""
+	}
+	defer ms.close()
+	b := &replayBuilder{e: e, m: ms, pkg: fn.Pkg.Pkg, objs: map[string]string{}, imports: map[string]string{}}
+	b.rnil = strings.TrimSpace(ms.eval("rnil"))
+	b.inil = strings.TrimSpace(ms.eval("inil"))
+	var args []string
+	recv := ""
+	for i, p := range fn.Params {
+		sym, ok := params[p.Name()]
+		if !ok {
+			panic(replayGiveUp{"parameter " + p.Name() + " not found in the script"})
+		}
+		v := b.value(sym, p.Type())
+		if i == 0 && fn.Signature.Recv() != nil {
+			recv = v
+			continue
+		}
+		args = append(args, v)
+	}
+	call := fn.Name() + "(" + strings.Join(args, ", ") + ")"
+	if recv != "" {
+		if recv == "nil" {
+			recv = "(" + b.typeStr(fn.Params[0].Type()) + ")(nil)"
+		}
+		call = "(" + recv + ")." + call
+	}
+	var src strings.Builder
+	src.WriteString("package " + fn.Pkg.Pkg.Name() + "\n\n// generated by /verif/engine (replay of a solver counterexample); obligation: " + o.Name + "\n\nimport (\n\t\"testing\"\n")
+	var ips []string
+	for p := range b.imports {
+		ips = append(ips, p)
+	}
+	sort.Strings(ips)
+	for _, p := range ips {
+		src.WriteString(fmt.Sprintf("\t%s %q\n", b.imports[p], p))
+	}
+	src.WriteString(")\n\nfunc TestVerifReplay(t *testing.T) {\n")
+	for _, d := range b.decls {
+		src.WriteString("\t" + d + "\n")
+	}
+	for _, a := range b.assigns {
+		src.WriteString("\t" + a + "\n")
+	}
+	for _, d := range b.decls {
+		// silence "declared and not used"
+		src.WriteString("\t_ = " + strings.SplitN(d, " ", 2)[0] + "\n")
+	}
+	src.WriteString("\tdefer func() {\n\t\tif r := recover(); r != nil {\n\t\t\tt.Fatalf(\"REPRODUCED: the real code panics on the solver's input: %v\", r)\n\t\t}\n\t}()\n")
+	src.WriteString("\t" + call + "\n}\n")
+	testSrc = src.String()
+	pkgDir = strings.TrimPrefix(fn.Pkg.Pkg.Path(), strings.TrimSuffix(modPrefix, "/"))
+	pkgDir = strings.TrimPrefix(pkgDir, "/")
+	out, rc := runOverlayTest(e.repoDir, pkgDir, testSrc)
+	if rc != 0 && strings.Contains(out, "REPRODUCED") {
+		return true, out, testSrc, pkgDir
+	}
+	if rc != 0 && strings.Contains(out, "panic:") {
+		return true, out, testSrc, pkgDir
+	}
+	note := ""
+	if len(b.approx) > 0 {
+		note = " (approximated: " + strings.Join(b.approx, ", ") + ")"
+	}
+	return false, "replay ran but did not panic" + note + ":\n" + out, testSrc, pkgDir
+}
+
+func shortKeyOf(k string) string {
+	k = strings.ReplaceAll(k, "gemmill/modules/", "")
+	k = strings.ReplaceAll(k, "gemmill/consensus/", "")
+	k = strings.ReplaceAll(k, "gemmill/", "")
+	k = strings.ReplaceAll(k, "chain/app/", "")
+	return k
+}
+
+func runOverlayTest(repo, pkgDir, src string) (string, int) {
+	d, err := os.MkdirTemp("", "verif_replay_")
+	if err != nil {
+		return err.Error(), 2
+	}
+	defer os.RemoveAll(d)
+	tf := filepath.Join(d, "zz_verif_replay_test.go")
+	os.WriteFile(tf, []byte(src), 0o644)
+	ov := filepath.Join(d, "ov.json")
+	ovb, _ := json.Marshal(map[string]map[string]string{"Replace": {filepath.Join(repo, pkgDir, "zz_verif_replay_test.go"): tf}})
+	os.WriteFile(ov, ovb, 0o644)
+	cmd := exec.Command("go", "test", "-overlay", ov, "-vet=off", "-count=1", "-timeout", "60s", "-run", "TestVerifReplay", "./"+pkgDir)
+	cmd.Dir = repo
+	cmd.Env = append(os.Environ(), "GOFLAGS=-mod=mod", "GOPROXY=off", "GOSUMDB=off", "GOTOOLCHAIN=local")
+	out, err := cmd.CombinedOutput()
+	rc := 0
+	if err != nil {
+		rc = 1
+	}
+	s := string(out)
+	if len(s) > 3000 {
+		s = s[len(s)-3000:]
+	}
+	return s, rc
 }
